@@ -393,9 +393,14 @@ try:
     VALIDATED = set(json.load(open(os.path.join(ROOT, "validated_thorough.json"))))
 except Exception:
     pass
+HOPELESS = r"(collect2|eq_map_n[23]|eq_set_n2|union_step[0-4]_(ro|mut)_n[23]|union_helper[12]_n[234]|union_whole_n2|whole_keys_values_clone_n2|split_interleave_n[34]|retain_shape7)"
 for x in H:
     if not x["quick_for"] and x["name"] not in VALIDATED:
         x["optional"] = True
+        # bound the time a thorough run spends on instances that are not known to finish
+        x["timeout"] = 600 if _re.fullmatch(HOPELESS, x["name"]) else 1800
+        if _re.fullmatch(HOPELESS, x["name"]):
+            x["note"] = "measured not to finish inside the limits of this sandbox (DESIGN.md §12); kept so that a stronger machine can decide it; reported inconclusive, never a pass"
 for x in H:
     x["thorough_for"] = list(x["quick_for"])
     for p in x["props"]:
